@@ -97,3 +97,33 @@ fn c05_deprecated_on_interface_field_is_accepted() {
 fn c05_unknown_type_of_interface_field_is_rejected() {
     assert!(!check_schema("type Query { a: Int } interface I { a: Nope }").is_empty());
 }
+
+// ---- C03: interface fast path (fixed): a fragment on the *same* interface as its parent must still have its body checked
+const IFACE_SCHEMA: &str = "
+    type Query { node: Node }
+    interface Node { id: ID! }
+    type User implements Node { id: ID! name: String }
+";
+fn check_with(schema: &str, op: &str) -> Vec<String> {
+    let mut doc = parse_type_system_document(schema).unwrap();
+    doc.extend(generate_builtins());
+    let doc = resolve_schema_extensions(doc).unwrap();
+    assert!(check_type_system_document(&doc).is_empty(), "schema must be valid");
+    let schema = ast_to_type_system(&doc);
+    let op = parse_operation_document(op).unwrap();
+    let (op, _) = resolve_operation_extensions(op).unwrap();
+    let context = OperationCheckContext::new(&schema);
+    check_operation_document(&op, &context).into_iter().map(|e| e.message.to_string()).collect()
+}
+#[test]
+fn c03_same_interface_inline_fragment_body_is_checked() {
+    assert!(!check_with(IFACE_SCHEMA, "query { node { ... on Node { nope } } }").is_empty(), "unknown field inside `... on Node` under a Node-typed field accepted");
+}
+#[test]
+fn c03_same_interface_fragment_spread_body_is_checked() {
+    assert!(!check_with(IFACE_SCHEMA, "query { node { ...F } } fragment F on Node { nope }").is_empty());
+}
+#[test]
+fn c04_same_interface_fragment_valid_body_is_accepted() {
+    assert!(check_with(IFACE_SCHEMA, "query { node { ... on Node { id } ...F } } fragment F on Node { id }").is_empty());
+}
